@@ -1303,6 +1303,23 @@ def sharing_docs() -> list[tuple[str, dict]]:
         pk = pk[variant % len(pk):] + pk[:variant % len(pk)]
         d["paths"] = {x: P[x] for x in pk}
         out.append((f"sharing:{variant}", d))
+    # schema *objects* that are processed more than once: a single-member wrapper (oneOf / anyOf / allOf around one reference) on a reusable parameter, on a
+    # path-item parameter inherited by several operations, and as a component alias declared before its target (processed again in the retry round)
+    for variant in range(3):
+        kw = ["oneOf", "anyOf", "allOf"][variant]
+        okw = {"200": {"description": "ok"}}
+        d = base_doc("3.0.3" if variant % 2 == 0 else "3.1.0", f"Sharing wrappers {variant}")
+        d["components"]["schemas"] = {"Alias": {kw: [R("Target")]}, "EnumAlias": {kw: [R("Code")]}, "Holder": {"type": "object", "properties": {"a": R("Alias"), "e": R("EnumAlias"), "w": {kw: [R("Target")]}, "l": {"type": "array", "items": {kw: [R("Code")]}}}},
+                                      "Target": {"type": "object", "properties": {"t": {"type": "string"}}, "required": ["t"]}, "Code": {"type": "string", "enum": ["c1", "c2"]},
+                                      "Later": {"type": "object", "properties": {"again": R("Alias"), "code": R("EnumAlias")}}}
+        d["components"]["parameters"] = {"CodeParam": {"name": "code", "in": "query", "schema": {kw: [R("Code")]}}, "When": {"name": "when", "in": "query", "schema": {("oneOf" if kw == "allOf" else kw): [{"type": "string", "format": "date"}]}}}
+        CP, WP = {"$ref": "#/components/parameters/CodeParam"}, {"$ref": "#/components/parameters/When"}
+        J = lambda sch: {"200": {"description": "ok", "content": {"application/json": {"schema": sch}}}}  # noqa: E731
+        d["paths"] = {"/alpha": {"get": {"operationId": "list_alpha", "parameters": [CP, WP], "responses": J(R("Holder"))}}, "/beta": {"get": {"operationId": "list_beta", "parameters": [CP], "responses": J(R("Alias"))}},
+                      "/gamma/{gid}": {"parameters": [{"name": "kind", "in": "query", "schema": {kw: [R("Code")]}}, {"name": "gid", "in": "path", "required": True, "schema": {"type": "string"}}],
+                                       "get": {"operationId": "get_gamma", "responses": J(R("Later"))}, "put": {"operationId": "put_gamma", "parameters": [WP], "requestBody": {"content": {"application/json": {"schema": {kw: [R("Target")]}}}}, "responses": okw},
+                                       "delete": {"operationId": "delete_gamma", "parameters": [CP], "responses": okw}}}
+        out.append((f"sharing:wrappers{variant}", d))
     return out
 
 
